@@ -134,6 +134,44 @@ def gen_history(rng, tier):
     return ops, labelsA, o
 
 
+def gen_interleaving(rng, tier):
+    """operations on 2-3 engines alive at the same time: each may be given a fresh list of nodes or a list object another engine holds (or
+    held), in whatever order an in-place sort left it and whatever an earlier layout left in its node objects"""
+    ops, nlists, neng = [], 0, 0
+    batches = []
+    for e in range(rng.randint(2, 3)):
+        labels, span = G.gen_labels(rng, tier, nmax=20)
+        batches.append((labels, span))
+    def some_opts():
+        labels, span = rng.choice(batches)
+        o = G.gen_force_opts(rng, labels, span)
+        if rng.random() < 0.35:
+            o["algorithm"] = "none"            # sorts the caller's list object in place
+        return o
+    ops.append(("new", some_opts())); neng = 1
+    ops.append(("nodes", batches[0][0])); nlists = 1
+    for _ in range(rng.randint(4, 12)):
+        c = rng.random()
+        if c < 0.15 and neng < 3:
+            ops.append(("new", some_opts())); neng += 1
+            ops.append(("use", rng.randrange(nlists)) if rng.random() < 0.6 else ("nodes", batches[min(nlists, len(batches) - 1)][0]))
+            if ops[-1][0] == "nodes":
+                nlists += 1
+        elif c < 0.35 and neng > 1:
+            ops.append(("switch", rng.randrange(neng)))
+        elif c < 0.5:
+            d = some_opts()
+            ops.append(("options", {k: d[k] for k in rng.sample(sorted(d), min(len(d), rng.randint(1, 2)))}))
+        elif c < 0.6:
+            ops.append(("use", rng.randrange(nlists)))
+        elif c < 0.65 and nlists < 4:
+            ops.append(("nodes", rng.choice(batches)[0])); nlists += 1
+        else:
+            ops.append(("compute",))
+    ops.append(("compute",))
+    return ops
+
+
 def run_c06(tier, seed, rep, only_prop=False, scale=1):
     import impl_layout as I
     n = common.count(tier, 250, 5000) * scale
@@ -167,6 +205,22 @@ def run_c06(tier, seed, rep, only_prop=False, scale=1):
             except Exception as e:
                 rep.prop_fail.append(("Force.compute raised %s in a history: %s" % (type(e).__name__, e), {"case": {"kind": "ehist", "ops": ops, "mode": "exact"}}))
         lines.append("perm|%s|%s" % (r1[0][1], r2[0][1])); metas.append({"kind": "perm", "labels": labelsA, "perm": perm, "opts": o, "mode": mode})
+    # several engines alive at once, sharing list objects and node objects (EngineT.MWorld): equality with the transliteration after every
+    # compute, and — the property itself — every compute reports what a fresh engine reports for the same options and data
+    for k in range(common.count(tier, 80, 1500) * scale):
+        ops = gen_interleaving(rng, tier)
+        meta = {"kind": "mhist", "ops": ops, "mode": "exact"}
+        try:
+            line, differ = I.run_mhist(ops)
+        except RecursionError:
+            rep.count("recursion-error(F3)"); continue
+        except Exception as e:
+            rep.prop_fail.append(("Force raised %s in an interleaving of several engines: %s" % (type(e).__name__, e), {"case": meta})); continue
+        if differ:
+            j, eng, want, got = differ[0]
+            rep.prop_fail.append(("C06: compute no. %d (engine %d) of this interleaving of several engines reports something else than a fresh engine with the same options and data" % (j, eng),
+                                  {"case": meta, "compute_no": j, "fresh": want[:1500], "got": got[:1500]}))
+        lines.append(line); metas.append(meta)
     answers = drive(lines)
     for line, meta, ans in zip(lines, metas, answers):
         f = fields(ans)
@@ -176,6 +230,12 @@ def run_c06(tier, seed, rep, only_prop=False, scale=1):
             rep.count("ehist"); rep.count("ehist same=" + f["same"])
             if f["same"] != "ok" and not only_prop:
                 rep.corr_fail.append(("real Force/Node objects and the stateful transliteration (EngineT) differ after a compute of this history: " + ans, payload))
+            continue
+        if f["_cmd"] == "mhist":
+            rep.case(line, nontrivial=int(f["engines"]) > 1 and int(f["computes"]) > 1, sample={"case": {"kind": "mhist", "ops": meta["ops"]}, "driver": ans} if rep.dist.get("mhist", 0) < 2 else None)
+            rep.count("mhist"); rep.count("mhist same=" + f["same"]); rep.count("mhist engines=" + f["engines"]); rep.count("mhist list-reordered=" + f["reordered"])
+            if f["same"] != "ok" and not only_prop:
+                rep.corr_fail.append(("real Force/Node objects and the multi-engine transliteration (EngineT.MWorld) differ after a compute of this interleaving: " + ans, payload))
             continue
         if f["_cmd"] == "perm":
             rep.case(line, nontrivial=True, sample=None)
@@ -216,6 +276,13 @@ def run(pid, tier, seed, replay=None):
             line = I.run_force([tuple(x) for x in m["labels"]], m["opts"], m["mode"], want_layer_lines=False)[0]
         elif m["kind"] == "ehist":
             line = I.run_ehist([tuple(o) if not isinstance(o, tuple) else o for o in m["ops"]])
+        elif m["kind"] == "mhist":
+            try:
+                line, differ = I.run_mhist([tuple(o) if not isinstance(o, tuple) else o for o in m["ops"]])
+            except Exception as e:
+                print("replay: raised", type(e).__name__, e); print("VIOLATION property=%s replay=%s" % (pid, replay)); return 1
+            if differ:
+                print("replay: compute no. %d differs from a fresh engine" % differ[0][0]); print("VIOLATION property=%s replay=%s" % (pid, replay)); return 1
         elif m["kind"] == "history":
             line = I.run_history([tuple(o) if not isinstance(o, tuple) else o for o in m["ops"]], m["mode"])[m["compute_no"]][0]
         else:
